@@ -256,6 +256,15 @@ def getOptInt (req : Json) (k : String) : Except String (Option Int) :=
   | .ok Json.null => pure none
   | .ok j => (j.getInt?).map some
 
+/-- `find_timestamp()` called first on the same loader (what `gemato verify` does): loads the chain for '' -/
+def preTs (req : Json) (w : L1.World) (l : L1.Loader) : Except L1.Err L1.Loader :=
+  match req.getObjVal? "pre_find_timestamp" with
+  | .ok (Json.bool true) =>
+    match L1.loadManifestsForPath w [] false true L1.defaultFuel l.loaded with
+    | .error e => .error e
+    | .ok lm => .ok { l with loaded := lm }
+  | _ => .ok l
+
 /-- verify_dir: {world, top, path, xdev, handler, last_mtime} -/
 def opVerifyDir (req : Json) : Except String Json := do
   let root ← getNode (← req.getObjVal? "world")
@@ -267,6 +276,7 @@ def opVerifyDir (req : Json) : Except String Json := do
   let lm ← getOptInt req "last_mtime"
   let r := do
     let l ← L1.openLoader w top xdev
+    let l ← preTs req w l
     l.assertDirectoryVerifies w path h lm
   pure (Json.mkObj [("model", match r with
     | .error e => jErr e
@@ -293,6 +303,7 @@ def opLookup (req : Json) : Except String Json := do
   let jOptEntry (e : Option Entry) : Json := match e with | none => Json.null | some e => jEntry e
   let r : Except L1.Err Json := do
     let l ← L1.openLoader w top
+    let l ← preTs req w l
     match api with
     | "find_path_entry" => let (_, e) ← l.findPathEntry w path; pure (Json.mkObj [("entry", jOptEntry e)])
     | "verify_path" => let (_, b) ← l.verifyPath w path; pure (Json.mkObj [("ret", Json.bool b)])
